@@ -510,7 +510,11 @@ func (c *client) receive(r io.Reader) (err error) {
 		return ServerError{fmt.Errorf("got a response with an unexpected call ID: %d", callID)}
 	}
 	if err := c.inFlightDown(); err != nil {
-		return ServerError{err}
+		// rpc has been unregistered, so failing the client is not
+		// going to fail it, we have to return the error to it
+		err = ServerError{err}
+		returnResult(rpc, nil, err)
+		return err
 	}
 
 	select {
